@@ -19,8 +19,16 @@ def kind_class(k):
     return k.split(":")[0]
 
 def run_scope(facts_dir, scope, rounds=8, use_cache=True):
+    """fixpoint of one entry-point scope; result cached next to the facts (keyed by the analysis code), computed once under a file lock"""
+    import fcntl
     cache = os.path.join(facts_dir, f"obl_{scope}_{os.environ.get('VERIF_ANALYSIS_KEY', 'dev')}.json")
     if use_cache and os.path.exists(cache): return json.load(open(cache))
+    with open(os.path.join(facts_dir, f"obl_{scope}.lock"), "w") as lf:
+        fcntl.flock(lf, fcntl.LOCK_EX)
+        if use_cache and os.path.exists(cache): return json.load(open(cache))
+        return _run_scope(facts_dir, scope, rounds, cache)
+
+def _run_scope(facts_dir, scope, rounds, cache):
     F = Facts(facts_dir)
     t0 = time.time()
     eng = fixpoint(SCOPES[scope], facts=F, max_rounds=rounds)
@@ -32,7 +40,8 @@ def run_scope(facts_dir, scope, rounds=8, use_cache=True):
         if not o["ok"]: e["descr"] = o["descr"]
     summ = {f"{short(k[0])}.{k[1]}.{k[2]}": repr(v) for k, v in eng.summ.items() if k[2] != "<exists>"}
     out = dict(scope=scope, wall_s=round(time.time() - t0, 1), sites=list(sites.values()), summaries=summ, unknown=dict(eng.unknown_callees.most_common(40)))
-    json.dump(out, open(cache, "w"))
+    tmp = cache + f".{os.getpid()}"
+    json.dump(out, open(tmp, "w")); os.replace(tmp, cache)
     return out
 
 def load_vetted(path):
